@@ -9,6 +9,7 @@ import (
 	"encoding/json"
 	"fmt"
 	"os"
+	"sort"
 	"strings"
 	"sync"
 	"sync/atomic"
@@ -24,6 +25,59 @@ type contendSpec struct {
 	Rounds     int `json:"rounds"`
 	Goroutines int `json:"goroutines"`
 	LongMs     int `json:"long_ms"` // > 0: also wait for a dependency that takes this long (C02: a call waits as long as it takes)
+	LateMs     int `json:"late_ms"` // > 0: ONLY the late-requester probe: a dependency running for this long, requested again 1.5 s before it ends
+}
+
+// a requester that arrives LATE - after the dependency has been running for a long time (beyond any built-in patience,
+// heartbeat or progress interval) - waits for it like one that arrives early (C02); run in a process of its own.
+var lateDone int32
+var lateRuns int32
+
+func lateDep() {
+	atomic.AddInt32(&lateRuns, 1)
+	time.Sleep(time.Duration(longSpecMs) * time.Millisecond)
+	atomic.StoreInt32(&lateDone, 1)
+}
+
+func lateProbe(ms int) string {
+	longSpecMs = ms
+	longNextWatch = &lateDone
+	t0 := time.Now()
+	otherDone := make(chan struct{})
+	go func() {
+		defer close(otherDone)
+		defer func() { recover() }()
+		mg.Deps(lateDep)
+	}()
+	time.Sleep(time.Duration(ms-1500) * time.Millisecond)
+	msgs := []string{}
+	for i, call := range []func(){
+		func() { mg.Deps(lateDep) },
+		func() { mg.SerialDeps(lateDep, mg.F(longNext, ms)) },
+		func() { mg.CtxDeps(context.Background(), lateDep) },
+	} {
+		if i > 0 && atomic.LoadInt32(&lateDone) == 1 {
+			break
+		}
+		panicked := false
+		func() {
+			defer func() { panicked = recover() != nil }()
+			call()
+		}()
+		if panicked || atomic.LoadInt32(&lateDone) != 1 {
+			msgs = append(msgs, fmt.Sprintf("a call naming a dependency that had been running for %d ms (of %d) ended after %d ms (panicked: %v) while the dependency had not finished",
+				ms-1500, ms, time.Since(t0).Milliseconds(), panicked))
+			break
+		}
+	}
+	<-otherDone
+	if atomic.LoadInt32(&longNextEarly) != 0 {
+		msgs = append(msgs, "SerialDeps(dependency in flight for a long time, next): next was started before the dependency had finished")
+	}
+	if n := atomic.LoadInt32(&lateRuns); n != 1 {
+		msgs = append(msgs, fmt.Sprintf("the long-running dependency ran %d times", n))
+	}
+	return strings.Join(msgs, "; ")
 }
 
 var longDone int32
@@ -110,6 +164,21 @@ type contendNS mg.Namespace
 func (contendNS) Body(round int) { atomic.AddInt32(&contendCount[round], 1) }
 
 func contend(spec contendSpec) {
+	if spec.LateMs > 0 {
+		json.NewEncoder(os.Stdout).Encode(map[string]interface{}{"late_wait": lateProbe(spec.LateMs)})
+		return
+	}
+	// exported functions of the tree under test that the API at /repo HEAD does not have (harness/apiprobe generates
+	// apiCalls into the build directory; nil on the unchanged tree): registration-style ones must be installed before
+	// any dependency runs - hooks once well-behaved and once panicking after they have done their work
+	apiStart := apiCalls("pass")
+	for _, n := range apiCalls("panic-after") {
+		apiStart = append(apiStart, n+"[its hook panics after having done its work]")
+	}
+	if len(apiStart) > 0 {
+		fmt.Fprintln(os.Stderr, "VPAPI-CALLED:", strings.Join(apiStart, ", "))
+	}
+	apiBad, apiCalled := apiProbe(apiStart)
 	contendCount = make([]int32, 2*spec.Rounds)
 	for r := 0; r < spec.Rounds; r++ {
 		var start, done sync.WaitGroup
@@ -149,7 +218,203 @@ func contend(spec contendSpec) {
 		"generic_runs":   []int32{atomic.LoadInt32(&genericRuns[0]), atomic.LoadInt32(&genericRuns[1])},
 		"invalid_member": invalidProbe(), "name_prefix": namesProbe(), "custom_fn": customProbe(), "verbose_late": verboseProbe(),
 		"wide": wideProbe(), "ctx_err": ctxErrProbe(), "escaped_names": escapedProbe(), "suffix_and_empty_args": suffixProbe(), "long_wait": longProbe(spec.LongMs),
-		"rerequest_after_many": rerequestProbe(), "crowd": crowdProbe(), "ambient": ambientProbe()})
+		"rerequest_after_many": rerequestProbe(), "crowd": crowdProbe(), "ambient": ambientProbe(),
+		"api": apiBad, "api_called": apiCalled, "api_skipped": apiSkipped})
+}
+
+// ---- API probe: calling the exported functions that the tree under test has IN ADDITION to the API the models know
+// (statistics, graphs, reports, snapshots, middleware, hooks, implicit dependencies, ...) between two requests changes
+// nothing the engine does for a dependency: every body runs exactly once, a dependency that failed fails every later
+// request with the same status and message, a serial call starts all its members in order (C01, C03, C13).
+// On the unchanged tree apiCalls is empty and this is a plain re-request scenario.
+var apiRuns [10]int32
+var apiSlowStarted = make(chan struct{})
+var apiSerMu sync.Mutex
+var apiSerOrder [2][]int
+
+func apiOK()         { atomic.AddInt32(&apiRuns[0], 1) }
+func apiFail() error { atomic.AddInt32(&apiRuns[1], 1); return mg.Fatal(7, "api-fail") }
+func apiSlowOK() {
+	if atomic.AddInt32(&apiRuns[2], 1) == 1 {
+		close(apiSlowStarted)
+	}
+	time.Sleep(50 * time.Millisecond)
+}
+func apiFastFail() error  { atomic.AddInt32(&apiRuns[3], 1); return mg.Fatal(9, "api-fast-fail") }
+func apiFailFirst() error { atomic.AddInt32(&apiRuns[4], 1); return fmt.Errorf("api-plain-error") }
+func apiSlowLater()       { atomic.AddInt32(&apiRuns[5], 1); time.Sleep(30 * time.Millisecond) }
+func apiPanics()          { atomic.AddInt32(&apiRuns[6], 1); panic("api-panic") }
+func apiArg(s string) error {
+	if s == "b" {
+		atomic.AddInt32(&apiRuns[7], 1)
+		return mg.Fatal(5, "api-arg-b")
+	}
+	atomic.AddInt32(&apiRuns[8], 1)
+	return nil
+}
+func apiNever() { atomic.AddInt32(&apiRuns[9], 1) }
+
+func apiSerMark(list, i int) {
+	apiSerMu.Lock()
+	apiSerOrder[list] = append(apiSerOrder[list], i)
+	apiSerMu.Unlock()
+}
+func apiSer0()        { apiSerMark(0, 0) }
+func apiSer1()        { apiSerMark(0, 1) }
+func apiSer2() error  { apiSerMark(0, 2); return nil }
+func apiSer3()        { apiSerMark(0, 3) }
+func apiSer4()        { apiSerMark(0, 4) }
+func apiSer5() error  { apiSerMark(0, 5); return nil }
+func apiSer6()        { apiSerMark(0, 6) }
+func apiSer7()        { apiSerMark(0, 7) }
+func apiSerArg(i int) { apiSerMark(1, i) }
+
+type apiOutcome struct {
+	panicked bool
+	status   int
+	msg      string
+}
+
+func (o apiOutcome) String() string {
+	if !o.panicked {
+		return "returned normally"
+	}
+	return fmt.Sprintf("panicked with status %d and message %q", o.status, o.msg)
+}
+
+var apiStyles = []string{"Deps", "CtxDeps", "SerialDeps", "SerialCtxDeps"}
+
+func apiReq(style int, fns ...interface{}) (o apiOutcome) {
+	defer func() {
+		if v := recover(); v != nil {
+			o = apiOutcome{true, 1, fmt.Sprint(v)}
+			if err, ok := v.(error); ok {
+				o.status, o.msg = mg.ExitStatus(err), err.Error()
+			}
+		}
+	}()
+	switch style {
+	case 0:
+		mg.Deps(fns...)
+	case 1:
+		mg.CtxDeps(context.Background(), fns...)
+	case 2:
+		mg.SerialDeps(fns...)
+	default:
+		mg.SerialCtxDeps(context.Background(), fns...)
+	}
+	return
+}
+
+func apiProbe(atStart []string) ([]string, []string) {
+	bad := []string{}
+	calledSet := map[string]bool{}
+	for _, n := range atStart {
+		calledSet[n] = true
+	}
+	call := func() {
+		for _, n := range apiCalls("pass") {
+			calledSet[n] = true
+		}
+	}
+	deps := []struct {
+		name   string
+		fn     func() interface{}
+		status int // 0: succeeds
+		text   string
+	}{
+		{"apiOK", func() interface{} { return apiOK }, 0, ""},
+		{"apiFail", func() interface{} { return apiFail }, 7, "api-fail"},
+		{"apiSlowOK", func() interface{} { return apiSlowOK }, 0, ""},
+		{"apiFastFail", func() interface{} { return apiFastFail }, 9, "api-fast-fail"},
+		{"apiFailFirst", func() interface{} { return apiFailFirst }, 1, "api-plain-error"},
+		{"apiSlowLater", func() interface{} { return apiSlowLater }, 0, ""},
+		{"apiPanics", func() interface{} { return apiPanics }, 1, "api-panic"},
+		{`mg.F(apiArg, "b")`, func() interface{} { return mg.F(apiArg, "b") }, 5, "api-arg-b"},
+		{`mg.F(apiArg, "a")`, func() interface{} { return mg.F(apiArg, "a") }, 0, ""},
+	}
+	first := make([]apiOutcome, len(deps))
+	// history: a slow successful dependency started first and a fast failing one second (finish order != start order);
+	// a failing one started before a slower successful one; a panic; one function with two argument lists of which the
+	// first fails and the second succeeds afterwards
+	slowDone := make(chan apiOutcome, 1)
+	go func() { slowDone <- apiReq(0, apiSlowOK) }()
+	select {
+	case <-apiSlowStarted:
+	case <-time.After(5 * time.Second):
+	}
+	first[3] = apiReq(0, apiFastFail)
+	first[2] = <-slowDone
+	first[1] = apiReq(0, apiOK, apiFail)
+	first[4] = apiReq(2, apiFailFirst)
+	first[5] = apiReq(1, apiSlowLater)
+	first[6] = apiReq(3, apiPanics)
+	first[7] = apiReq(0, mg.F(apiArg, "b"))
+	first[8] = apiReq(2, mg.F(apiArg, "a"))
+	for i, d := range deps {
+		if o := first[i]; o.panicked != (d.status != 0) || (o.panicked && (o.status != d.status || !strings.Contains(o.msg, d.text))) {
+			want := "return normally"
+			if d.status != 0 {
+				want = fmt.Sprintf("panic with status %d and a message holding %q", d.status, d.text)
+			}
+			bad = append(bad, fmt.Sprintf("the first request for %s %s (must %s)", d.name, o, want))
+		}
+	}
+	steps := []string{}
+	recheck := func(step string) {
+		steps = append(steps, step)
+		for i, d := range deps {
+			for style := range apiStyles {
+				if o := apiReq(style, d.fn()); o != first[i] {
+					bad = append(bad, fmt.Sprintf("after [%s] %s(%s) %s; the first request for it %s", strings.Join(steps, "; "), apiStyles[style], d.name, o, first[i]))
+					break
+				}
+			}
+			if d.status != 0 {
+				if o := apiReq(2+i%2, d.fn(), apiNever); o != first[i] {
+					bad = append(bad, fmt.Sprintf("after [%s] %s(%s, next) %s; the first request for %s %s", strings.Join(steps, "; "), apiStyles[2+i%2], d.name, o, d.name, first[i]))
+				}
+			}
+		}
+		for i, d := range deps {
+			if got := atomic.LoadInt32(&apiRuns[i]); got != 1 {
+				bad = append(bad, fmt.Sprintf("%s ran %d times after [%s] (must run exactly once)", d.name, got, strings.Join(steps, "; ")))
+				atomic.StoreInt32(&apiRuns[i], 1)
+			}
+		}
+		if got := atomic.LoadInt32(&apiRuns[9]); got != 0 {
+			bad = append(bad, fmt.Sprintf("the member after a failed one was started %d times by a serial call after [%s]", got, strings.Join(steps, "; ")))
+			atomic.StoreInt32(&apiRuns[9], 0)
+		}
+	}
+	recheck("the first requests")
+	call()
+	recheck("the API calls")
+	// a serial call as the FIRST call after the API calls: all members, in order
+	serial := func(list int, step string, o apiOutcome) {
+		steps = append(steps, step)
+		apiSerMu.Lock()
+		got := fmt.Sprint(apiSerOrder[list])
+		apiSerMu.Unlock()
+		if o.panicked || got != "[0 1 2 3 4 5 6 7]" {
+			bad = append(bad, fmt.Sprintf("after [%s]: it %s having started its members %s (must return normally having started 0..7 in order)", strings.Join(steps, "; "), o, got))
+		}
+	}
+	call()
+	serial(0, "the API calls again; SerialDeps over 8 fresh dependencies as the next call", apiReq(2, apiSer0, apiSer1, apiSer2, apiSer3, apiSer4, apiSer5, apiSer6, apiSer7))
+	call()
+	fns := []interface{}{}
+	for i := 0; i < 8; i++ {
+		fns = append(fns, mg.F(apiSerArg, i))
+	}
+	serial(1, "the API calls again; SerialCtxDeps over 8 fresh mg.F dependencies as the next call", apiReq(3, fns...))
+	recheck("all dependencies requested again")
+	names := []string{}
+	for n := range calledSet {
+		names = append(names, n)
+	}
+	sort.Strings(names)
+	return bad, names
 }
 
 // ---- a function of package ".../tasks.V2" and the method of type V2 in package ".../tasks" have
